@@ -75,6 +75,63 @@ pub fn cross_decode(ctx: &mut Ctx, case: &DictCase) {
             return;
         }
     }
+    // the block-address store of the real index (bit-packed, grouped by STORE_BLOCK_LEN) decoded
+    // by the model: (first ordinal, byte range) of every block, and the ordinal → block search
+    {
+        let n = case.keys.len() as u64;
+        let probes: Vec<u64> = {
+            let mut p = vec![0, 1, n / 2, n.saturating_sub(1), n, n + 7];
+            for l in layout.iter().take(300).step_by(7) {
+                p.push(l.0);
+                p.push(l.0 + l.1 - 1);
+                p.push(l.0 + l.1);
+            }
+            p
+        };
+        let resp = ctx.model.ask(&format!("C15 index {} {}", hex(&file), nats_field(&probes)));
+        // expected addresses: byte ranges from the raw framing, first ordinals from the layout
+        let mut expected = vec![];
+        let mut p = 0usize;
+        for l in layout.iter() {
+            if p + 4 > file.len() {
+                break;
+            }
+            let len = u32::from_le_bytes(file[p..p + 4].try_into().unwrap()) as usize;
+            expected.push(format!("{}:{}:{}", l.0, p, p + 4 + len));
+            p += 4 + len;
+        }
+        if layout.len() <= 1 {
+            ctx.report.count("index-store:absent(<=1 block)");
+            if resp != "empty" {
+                ctx.report.violation("model", "C15:index-store-model", format!("a file with {} blocks should carry no index, model read {}", layout.len(), &resp[..resp.len().min(60)]), cj.clone());
+            }
+        } else {
+            ctx.report.count(&format!("index-store:groups-{}", (layout.len() + 127) / 128));
+            let want_ids: Vec<u64> = probes.iter().map(|o| layout.iter().rposition(|l| l.0 <= *o).unwrap_or(0) as u64).collect();
+            let want = format!("{}|{}", expected.join(","), nats_field(&want_ids));
+            if resp != want {
+                let (ra, wa) = (resp.split('|').next().unwrap_or(""), want.split('|').next().unwrap_or(""));
+                let what = if ra != wa { "block addresses" } else { "ordinal → block search" };
+                ctx.report.violation("model", "C15:index-store-model", format!("Lean block-address-store model reads different {what} from the real index bytes ({} blocks)", layout.len()), cj.clone());
+            }
+            // the real index agrees with the same addresses (through the public routing call)
+            let opened = match case.vk.as_str() {
+                "void" => Dictionary::<VoidSSTable>::from_bytes(OwnedBytes::new(file.clone())).ok().map(|d| d.sstable_index),
+                "u64" => Dictionary::<MonotonicU64SSTable>::from_bytes(OwnedBytes::new(file.clone())).ok().map(|d| d.sstable_index),
+                _ => Dictionary::<RangeSSTable>::from_bytes(OwnedBytes::new(file.clone())).ok().map(|d| d.sstable_index),
+            };
+            if let Some(idx) = opened {
+                for (i, l) in layout.iter().enumerate().take(400) {
+                    let k = &case.keys[l.0 as usize];
+                    let got = idx.get_block_with_key(k).map(|a| format!("{}:{}:{}", a.first_ordinal, a.byte_range.start, a.byte_range.end));
+                    if got.as_deref() != expected.get(i).map(|s| s.as_str()) {
+                        ctx.report.violation("oracle", "C15:index-block-address", format!("get_block_with_key(first key of block {i}) = {:?}, the block lies at {:?}", got, expected.get(i)), cj.clone());
+                        break;
+                    }
+                }
+            }
+        }
+    }
     // reverse direction (void values): blocks encoded by the model, read by the real Reader,
     // and byte-equal to what the real writer wrote
     if case.vk == "void" {
